@@ -2,38 +2,41 @@ package main
 
 import (
 	"fmt"
-	"os"
-	"time"
 
 	"verif/harness/internal/chaingen"
+	"verif/harness/internal/mgrsim"
 	"verif/harness/internal/rng"
 )
 
 func main() {
-	chaingen.Debug = len(os.Args) > 1
-	for regime := 0; regime < 3; regime++ {
-		t0 := time.Now()
-		r := rng.New(uint64(regime) + 1)
-		env := chaingen.NewEnv(r, regime)
-		t := chaingen.Gen(r, env, chaingen.GenOpts{Blocks: 30, Branchiness: 5, TxPerBlock: 4, Corruptions: 6})
-		kinds := map[string]int{}
-		corr := map[string]int{}
-		maxh := uint64(0)
-		for _, n := range t.Nodes {
-			for _, k := range n.Kinds {
-				if n.Corrupt == "" {
-					kinds[k]++
+	for regime := 0; regime < 6; regime++ {
+		near, trees := 0, 0
+		for s := 0; s < 40; s++ {
+			r := rng.New(uint64(1000*regime + s))
+			env := chaingen.NewEnv(r, regime)
+			t := chaingen.Gen(r, env, chaingen.GenOpts{Blocks: 20, Branchiness: 4, TxPerBlock: 1, Jitter: 4000})
+			trees++
+			found := false
+			for _, a := range t.Nodes {
+				for _, b := range t.Nodes {
+					atw, _ := a.Work()
+					btw, _ := b.Work()
+					if atw.Cmp(btw) > 0 && !mgrsim.Heavier(a, b) {
+						found = true
+					}
 				}
 			}
-			if n.Corrupt != "" {
-				corr[fmt.Sprintf("%s hdr=%v body=%v", n.Corrupt, n.HdrOK, n.BodyOK)]++
+			if found {
+				near++
 			}
-			if n.Height > maxh {
-				maxh = n.Height
+			if s == 0 {
+				for _, n := range t.Nodes[:12] {
+					tw, d := n.Work()
+					fmt.Print(n.Height, ":", tw, "/", d, " ")
+				}
+				fmt.Println()
 			}
 		}
-		fmt.Println(chaingen.RegimeNames[regime], "nodes", len(t.Nodes), "maxheight", maxh, time.Since(t0))
-		fmt.Println("  kinds", kinds)
-		fmt.Println("  corruptions", corr)
+		fmt.Println(chaingen.RegimeNames[regime], "trees with a near-tie pair:", near, "/", trees)
 	}
 }
